@@ -462,13 +462,32 @@ class Frame:
             c.kind = self.attr_kind(self.cls, attr)
         return c
 
+    @staticmethod
+    def implied(q: Path, tt: Term) -> Optional[bool]:
+        """Polarity of a pure test already decided earlier on this path."""
+        k = tt.key()
+        if "call" in k or "Val(" in k or "Opaque" in k or "elem(" in k:
+            return None
+        alt = None
+        if k.startswith("cmp:IsNot("):
+            alt = "cmp:Is(" + k[len("cmp:IsNot("):]
+        elif k.startswith("cmp:Is("):
+            alt = "cmp:IsNot(" + k[len("cmp:Is("):]
+        for c in q.conds:
+            if c[2] == k:
+                return c[1]
+            if alt is not None and c[2] == alt:
+                return not c[1]
+        return None
+
     def do_if(self, st: ast.If, p: Path) -> List[Path]:
         out = []
-        d = self.decide(st.test, p)
+        d0 = self.decide(st.test, p)
         for q, tt in self.expr(st.test, p):
             if q.status != "live":
                 out.append(q)
                 continue
+            d = d0 if d0 is not None else self.implied(q, tt)
             txt = ast.unparse(st.test)
             if d is not False:
                 a = q.fork()
@@ -533,7 +552,14 @@ class Frame:
         for h in st.handlers:
             htypes.append(ast.unparse(h.type) if h.type is not None else "BaseException")
         n0 = len(p.events)
-        self.guards.append("|".join(htypes))
+        gtxt = []
+        for h, ht in zip(st.handlers, htypes):
+            rer = False
+            for x in ast.walk(h):
+                if isinstance(x, ast.Raise) and (x.exc is None or (h.name and isinstance(x.exc, ast.Name) and x.exc.id == h.name)):
+                    rer = True
+            gtxt.append(ht + ("!" if rer else ""))
+        self.guards.append("|".join(gtxt))
         try:
             body = self.block(st.body, [p.fork()])
         finally:
@@ -820,11 +846,12 @@ class Frame:
 
     def e_IfExp(self, e, p):
         out = []
-        d = self.decide(e.test, p)
+        d0 = self.decide(e.test, p)
         for q, tt in self.expr(e.test, p):
             if q.status != "live":
                 out.append((q, Opaque("dead")))
                 continue
+            d = d0 if d0 is not None else self.implied(q, tt)
             txt = ast.unparse(e.test)
             if d is not False:
                 a = q.fork()
